@@ -62,7 +62,7 @@ def cases(draw):
         sites.append({
             "args": vals[:npos],
             "kws": [[PN[k], vals[k]] for k in range(npos, stop)],
-            "pos": draw(st.sampled_from(["stmt", "assign", "nested", "nested", "print"])),
+            "pos": draw(st.sampled_from(["stmt", "assign", "nested", "nested", "print", "multiline"])),
             "module": draw(st.sampled_from(["lib", "use", "use"])),
             "qualified": draw(st.booleans()),
             # where the call stands: module level, or inside a function of its own without / with a local named like a
@@ -127,6 +127,9 @@ def render(case):
             line = "def h%d():\n%s    r%d = %s\n    return r%d%s\nprint(h%d())\n" % (k, "    t0 = 50\n" if clash else "", k, ref, k, " + t0" if clash else "", k)
         elif s["pos"] == "stmt" and kind != "variable":
             line = "%s\n" % ref
+        elif s["pos"] == "multiline":
+            # the call stands on a continuation line of a statement that follows a deeper-indented block
+            line = "if w:\n    pass\nr%d = (1 +\n    %s)\nprint(r%d)\n" % (k, ref, k)
         elif s["pos"] == "assign":
             line = "r%d = %s\nprint(r%d)\n" % (k, ref, k)
         elif s["pos"] == "nested":
